@@ -2076,13 +2076,21 @@ class Turns:
             self.turn = None
             self.cv.notify_all()
 
+    timeouts = 0              # grants that timed out in this process (a blocked check: reported by the caller)
+
     def grant(self, who, timeout=60.0):
-        """let `who` run until it parks again (or finishes)."""
+        """let `who` run until it parks again (or finishes).  A grant that times out means the check is blocked
+        (reported by the caller); after two such grants in one process the patience drops to 1 s so that a tree
+        on which checks block each other is still judged in minutes, not hours."""
+        if Turns.timeouts >= 2:
+            timeout = min(timeout, 1.0)
         with self.cv:
             self.parked[who] = False
             self.turn = who
             self.cv.notify_all()
             ok = self.cv.wait_for(lambda: self.turn is None and (self.parked.get(who) or who in self.done), timeout)
+            if not ok:
+                Turns.timeouts += 1
             return ok
 
 
@@ -2236,13 +2244,14 @@ def impl_run_conc(c):
         out["error"] = "harness error %s: %s" % (type(e).__name__, e)
     finally:
         # release whatever is still parked
+        impatient = Turns.timeouts >= 2      # checks block each other on this tree: do not wait for them at length
         for i in range(len(threads)):
-            for _ in range(8):
+            for _ in range(2 if impatient else 8):
                 if i in turns.done:
                     break
-                turns.grant(i, 1.0)
+                turns.grant(i, 0.2 if impatient else 1.0)
         for t in threads:
-            t.join(2.0)
+            t.join(0.2 if impatient else 2.0)
         su.close()
     return out
 
